@@ -23,6 +23,7 @@ ASSUMPTIONS = ["numpy float64 arithmetic; xarray Dataset accessors return the st
 REQUIRED_MONITORS = ["C01.frequency_moment==trapz", "C01.hm0", "C01.tm01", "C01.tm02",
                      "C01.law:scale", "C01.law:additive", "C01.law:Tm02<=Tm01", "C01.law:period-range",
                      "C01.alias"]
+REQUIRED_COUNTERS = {"C01.read-modify-read_sequences": 5}
 REQUIRED_REACH = ["spectrum.py:WaveSpectrum.frequency_moment", "spectrum.py:WaveSpectrum._range",
                   "spectrum.py:FrequencyDirectionSpectrum.e"]
 TIMEOUT = {"quick": 600, "thorough": 2400}
@@ -150,6 +151,33 @@ def judge(ctx, c, rng):
                   case=lambda: {"gen": c, "power": p, "op": "neg"}, key="C01:law:additive")
 
 
+def judge_sequence(ctx, c, rng):
+    """read - modify the same object in place - read again: results must follow the object's current content
+    (the class-level postconditions recompute every result from the raw arrays at the time of the call)"""
+    s = gs.build(c)
+    f = c["freq"]
+    ctx.case(gs.descriptor(c) + ("read-modify-read",), nontrivial=len(f) >= 2,
+             sample={"kind": c["kind"], "layout": c["layout"], "sequence": "read, multiply(inplace=True), read, fillna, read"})
+    wit = lambda: {"gen": c, "sequence": True}  # noqa
+    lo, hi = float(f[0]), float(f[-1])
+    band = (0.0, np.inf) if rng.uniform() < 0.5 else tuple(sorted(rng.uniform(lo, hi, 2)))
+
+    def read():
+        for name in ("m0", "m1", "m2", "hm0", "tm01", "tm02"):
+            guarded(ctx, "C01.no-exception", lambda: getattr(s, name)(*band), wit)
+        guarded(ctx, "C01.no-exception", lambda: s.frequency_moment(3, *band), wit)
+    read()
+    ramp = rng.uniform(0.1, 3.0, len(f)) * np.linspace(0.2, 3.0, len(f)) ** float(rng.choice([-2, 2]))
+    guarded(ctx, "C01.no-exception", lambda: s.multiply(ramp, ["frequency"], inplace=True), wit)
+    ctx.count("C01.read-modify-read_sequences")
+    read()
+    guarded(ctx, "C01.no-exception", lambda: s.fillna(0.0), wit)
+    read()
+    E2 = np.asarray(s.variance_density.values) * 0.5
+    guarded(ctx, "C01.no-exception", lambda: s.__setitem__("variance_density", s.dataset["variance_density"] * 0.5), wit)
+    read()
+
+
 def run_shard(ctx, shard):
     if shard.get("repo_tests"):
         from ..core import run_repo_tests_under_contracts
@@ -162,6 +190,8 @@ def run_shard(ctx, shard):
         sub = np.random.default_rng(int(rng.integers(0, 2 ** 62)))
         c["_sub"] = int(sub.integers(0, 2 ** 62))
         judge(ctx, c, np.random.default_rng(c["_sub"]))
+        if i % 3 == 0:
+            judge_sequence(ctx, c, np.random.default_rng(c["_sub"] + 1))
 
 
 def replay(ctx, case):
@@ -170,4 +200,7 @@ def replay(ctx, case):
         ms.call_case(case)
     else:
         g = case["gen"]
-        judge(ctx, g, np.random.default_rng(int(g["_sub"])))
+        if case.get("sequence"):
+            judge_sequence(ctx, g, np.random.default_rng(int(g["_sub"]) + 1))
+        else:
+            judge(ctx, g, np.random.default_rng(int(g["_sub"])))
